@@ -168,7 +168,7 @@ def make_send(n_sends: int, concurrent: bool):
                 try:
                     await xknx.cemi_handler.send_telegram(tg)
                     sends[i]["result"] = "ok"
-                except Exception as exc:  # noqa: BLE001
+                except BaseException as exc:  # noqa: BLE001
                     sends[i]["result"] = type(exc).__name__
                 sends[i]["ret"] = loop.time()
                 sends[i]["ret_seq"] = len(events)
